@@ -181,6 +181,8 @@ func check(res *runResult) *machine {
 		case 'Z':
 			m.clientGone = true
 			m.label("C.gone")
+		case 'B':
+			m.violate(i, "frame-stream.corrupt", "the bytes the server wrote to the connection stop being a sequence of WebSocket frames (two writers interleaved): "+e.Raw, map[string]string{"after_close_frame": fmt.Sprint(m.closed), "close_frame_inside_message": "false"})
 		}
 		if len(m.findings) > 0 {
 			// The machine rejects the trace at its first offending event. What follows is not judged:
@@ -424,6 +426,12 @@ func (m *machine) server(i int, e traceEv) {
 	}
 	var w wireMsg
 	if err := json.Unmarshal([]byte(e.Raw), &w); err != nil {
+		if m.res.opts.wire {
+			// a well-delimited text frame whose payload is not a message: another writer's bytes landed inside it
+			m.violate(i, "frame-stream.corrupt", fmt.Sprintf("text frame whose payload is no JSON message (%v); first bytes %x", err, truncate(e.Raw, 24)),
+				map[string]string{"after_close_frame": fmt.Sprint(m.closed), "close_frame_inside_message": fmt.Sprint(strings.HasPrefix(e.Raw, "\x88"))})
+			return
+		}
 		m.violate(i, "server-msg.invalid", "the server wrote bytes that are not a JSON message: "+err.Error(), nil)
 		return
 	}
@@ -868,6 +876,13 @@ func (m *machine) finish() {
 				map[string]string{"optype": optypeName(in.kind)})
 		}
 	}
+}
+
+func truncate(s string, n int) string {
+	if len(s) > n {
+		return s[:n]
+	}
+	return s
 }
 
 func findingsSummary(fs []finding) string {
